@@ -71,6 +71,74 @@ def check_script(ctx, stmts, text, what='plain script'):
     return pieces
 
 
+BLOCK_WORDS = {'DECLARE', 'BEGIN', 'IF', 'FOR', 'WHILE', 'LOOP', 'GO', 'FOREACH'}
+
+
+def plain_reference(text):
+    """number of statements the property demands for a PLAIN (non-procedural) script given as raw text, or None when the text is outside that
+    class: any block keyword / CREATE / GO / END <word>, unbalanced parentheses, or CASE … END not properly nested and closed inside its statement.
+    Statements end at `;` outside parentheses; whitespace and single-line comments after the `;` stay with the finished statement."""
+    toks = oracles.lex(text)
+    depth = cdepth = 0
+    count = 0
+    cur = False
+    consume = False
+    for tt, v in toks:
+        if consume and not (tt is T.Whitespace or tt is T.Comment.Single):
+            count += 1
+            cur = False
+            consume = False
+        if tt in T.Keyword:
+            norm = ' '.join(v.upper().split())
+            if norm == 'CASE':
+                cdepth += 1
+            elif norm == 'END':
+                cdepth -= 1
+                if cdepth < 0:
+                    return None
+            elif norm in BLOCK_WORDS or norm.split()[0] in BLOCK_WORDS or norm.startswith('END ') or norm.startswith('CREATE') or tt is T.Keyword.DDL and norm.startswith('CREATE'):
+                return None
+        elif tt is T.Punctuation and v == '(':
+            depth += 1
+        elif tt is T.Punctuation and v == ')':
+            depth -= 1
+            if depth < 0:
+                return None
+        if tt not in T.Whitespace:
+            cur = True
+        if tt is T.Punctuation and v == ';' and depth == 0:
+            if cdepth != 0:
+                return None
+            consume = True
+    if depth != 0 or cdepth != 0:
+        return None
+    if consume or cur:
+        count += 1
+    return count
+
+
+def oracle(ctx, text):
+    """raw text: when the text is a plain script in the sense of plain_reference, split() and parse() must return exactly that many statements"""
+    if not isinstance(text, str):
+        return
+    try:
+        want = plain_reference(text)
+    except Exception:
+        return
+    if want is None:
+        return
+    ctx.evaluations += 1
+    ctx.count('plain_reference_applies')
+    try:
+        got = len(sqlparse.split(text))
+        got2 = len(sqlparse.parse(text))
+    except Exception as e:
+        ctx.fail('split/parse raised ' + type(e).__name__, text, observed=repr(e), required=want)
+        return
+    if got != want or got2 != want:
+        ctx.fail('plain script (raw text): number of statements', text, observed=[got, got2], required=want)
+
+
 def run(ctx):
     rng = ctx.rng
     n = ctx.n(400, 12000)
@@ -117,22 +185,44 @@ def run(ctx):
             ctx.mismatch('DOMAIN(quiet)', s, o, 'grammar statement expected to satisfy SUnit.ok')
         # correspondence
         streams.s_csl(ctx)
-        streams.s_split(ctx, [gen.gsplit(rng) for _ in range(ctx.n(4000, 60000))])
+        gs = [gen.gsplit(rng) for _ in range(ctx.n(4000, 60000))]
+        streams.s_split(ctx, gs)
         ins = [c['input'] for c in streams.corpus('C05')] + [gen.mixed(rng) for _ in range(ctx.n(2000, 40000))]
         streams.s_split(ctx, ins)
+        gp = [gen.gplain(rng) for _ in range(ctx.n(3000, 60000))]
+        streams.s_split(ctx, gp[: ctx.n(1500, 20000)])
+        for t in gs + gp + [x for x in ins if isinstance(x, str)]:
+            oracle(ctx, t)
         gtexts = model_q[: ctx.n(300, 3000)]
         streams.s_split(ctx, gtexts)
     else:
         ctx.notes.append('model driver unavailable: correspondence streams skipped')
 
 
+def semicolon_in_parens_after_end(text):
+    """KF-C05-1: is there a `;` inside parentheses that follows a plain END keyword of the same statement (statements counted as the
+    property counts them: ended by `;` outside parentheses)?"""
+    depth = 0
+    end_seen = False
+    for tt, v in oracles.lex(text):
+        if tt is T.Punctuation and v == '(':
+            depth += 1
+        elif tt is T.Punctuation and v == ')':
+            depth = max(0, depth - 1)
+        elif tt in T.Keyword and ' '.join(v.upper().split()) == 'END':
+            end_seen = True
+        elif tt is T.Punctuation and v == ';':
+            if depth > 0 and end_seen:
+                return True
+            if depth == 0:
+                end_seen = False
+    return False
+
+
 def classify(f, kf):
     for k in kf:
-        if k['id'] == 'KF-C05-1' and isinstance(f['input'], str):
-            # END inside an open parenthesis followed by a semicolon inside the same parenthesis
-            import re
-            if re.search(r'\((?:[^()]|\([^()]*\))*\bend\b(?:[^()]|\([^()]*\))*;', f['input'], re.I | re.S):
-                return k['id']
+        if k['id'] == 'KF-C05-1' and isinstance(f['input'], str) and semicolon_in_parens_after_end(f['input']):
+            return k['id']
     return None
 
 
@@ -152,5 +242,5 @@ def replay(ctx, payload):
         return a != b
     req = payload.get('required')
     if isinstance(req, int):
-        return len(sqlparse.split(inp)) != req
+        return len(sqlparse.split(inp)) != req or len(sqlparse.parse(inp)) != req
     return True
